@@ -102,6 +102,7 @@ type Rendered struct {
 
 type fileBuf struct {
 	afterText bool // the previous thing written is a Description text: no trivia may follow directly
+	afterBody bool // the previous thing written is a schema / enum / regex body: comments that follow are read by the schema scanner
 	name      string
 	sb        strings.Builder
 	line      int
@@ -152,7 +153,25 @@ func (rr *renderer) trivia(f *fileBuf, ind string, id int, where string) {
 		case 0:
 			// blank line
 		case 1:
-			f.sb.WriteString(ind + "# " + genCommentText(x))
+			// a one-line comment: "# text", "#text", "## text", or nothing but the sign(s) - never three signs in a row
+			form := x.Intn(6)
+			if f.afterBody {
+				// after a schema body the comment belongs to the schema language: "##" is an error there, and a comment
+				// that is nothing but "#" swallows the next line (open finding S2) - only "# text" is written
+				form = 5
+			}
+			switch form {
+			case 0:
+				f.sb.WriteString(ind + "##")
+			case 1:
+				f.sb.WriteString(ind + "#")
+			case 2:
+				f.sb.WriteString(ind + "## " + genCommentText(x))
+			case 3:
+				f.sb.WriteString(ind + "#" + genCommentText(x))
+			default:
+				f.sb.WriteString(ind + "# " + genCommentText(x))
+			}
 		case 2:
 			f.sb.WriteString(ind + "###" + l.EOL)
 			f.line++
@@ -182,6 +201,8 @@ func (rr *renderer) renderList(f *fileBuf, dirs []*Dir, depth int) {
 		if d.Kw == "INCLUDE" {
 			// an INCLUDE: the included directives are written to their own file with an arbitrary base depth
 			f.afterText = false
+		f.afterBody = false
+			f.afterBody = false
 			f.sb.WriteString(ind)
 			kb := f.off()
 			f.sb.WriteString("INCLUDE")
@@ -293,6 +314,11 @@ func (rr *renderer) renderList(f *fileBuf, dirs []*Dir, depth int) {
 			case "no":
 			default:
 				explicit = len(d.Children) > 0 && l.ch(d.ID, "explicit", l.PExplicit)
+				if len(d.Children) == 0 && d.BodyKind != "" && d.BodyKind != "text" && l.PExplicit > 0 && l.rnd(d.ID, "bodyparens", 6) == 0 {
+					// a directive without children may still put its body in parentheses
+					explicit = true
+					rr.out.Features["body-in-parentheses"]++
+				}
 			}
 		}
 		textParens := d.Kw == "Description" && l.ch(d.ID, "textparens", l.PExplicit)
@@ -365,6 +391,7 @@ func (rr *renderer) renderList(f *fileBuf, dirs []*Dir, depth int) {
 					rr.eol(f)
 				}
 				f.spans = append(f.spans, Span{code, bb, be})
+				f.afterBody = true
 			}
 		}
 		if d.Kw == "Description" && d.BodyKind == "" {
